@@ -295,15 +295,19 @@ theorem step_verStep (t : Tree) (op : Op) : VerStep t.nodes (step t op).1.nodes 
     | none => exact VerStep.refl _
     | some par =>
       simp only
-      cases hk : (retainInParent t par n).children.get n with
-      | none => simp only [hr]; exact verStep_remove _ _
-      | some l =>
-        simp only
-        cases hsp : setParents (retainInParent t par n).parents none l with
-        | mk pm b =>
-          cases b with
-          | false => simp only [hr]; exact VerStep.refl _
-          | true => simp only [hr]; exact verStep_remove _ _
+      cases hmd : markDirtyOpt (retainInParent t par n) par with
+      | false => simp only [hr, Bool.false_eq_true, ↓reduceIte]; exact VerStep.refl _
+      | true =>
+        simp only [↓reduceIte]
+        cases hk : (retainInParent t par n).children.get n with
+        | none => simp only [hr]; exact verStep_remove _ _
+        | some l =>
+          simp only
+          cases hsp : setParents (retainInParent t par n).parents none l with
+          | mk pm b =>
+            cases b with
+            | false => simp only [hr]; exact VerStep.refl _
+            | true => simp only [hr]; exact verStep_remove _ _
   | setNodeContext n x =>
     simp only [step, setNodeContext]
     split
